@@ -133,6 +133,12 @@ func account(sc *scenario, n int, o *outcome, v verdict) {
 	if sc.Peer.TimeoutErr != "" {
 		hx.Class("conn/timeout-error-" + sc.Peer.TimeoutErr)
 	}
+	if sc.Peer.DLFault != "" {
+		hx.Class("conn/set-deadline-" + sc.Peer.DLFault)
+	}
+	if sc.Peer.CloseErr {
+		hx.Class("conn/close-fails")
+	}
 	hx.Class("wrap/" + map[bool]string{true: "none", false: sc.Wrap}[sc.Wrap == ""])
 	hx.Class("timeout/" + timeoutClass(sc))
 	hx.Class("peer/" + peerClass(&sc.Peer))
@@ -176,7 +182,7 @@ func account(sc *scenario, n int, o *outcome, v verdict) {
 		return
 	}
 	hx.Class("nontrivial")
-	key := hx.Hash(sc.DialIgnoresCtx, sc.Debug, sc.Scheme, sc.Entry, sc.Wrap, sc.Ctx, timeoutClass(sc), peerClass(&sc.Peer), sc.RBuf, sc.WBuf, n, sc.Plan.label(), sc.Plan.IO, v.BoundKind, o.AtReturn.IOs, v.Outcome)
+	key := hx.Hash(sc.Peer.DLFault, sc.Peer.CloseErr, sc.DialIgnoresCtx, sc.Debug, sc.Scheme, sc.Entry, sc.Wrap, sc.Ctx, timeoutClass(sc), peerClass(&sc.Peer), sc.RBuf, sc.WBuf, n, sc.Plan.label(), sc.Plan.IO, v.BoundKind, o.AtReturn.IOs, v.Outcome)
 	hx.NonTrivial(key, func() interface{} { return describe(sc, n, o, v) })
 }
 
@@ -221,6 +227,9 @@ func drawConfig(t *rapid.T) *scenario {
 	}
 	sc.DialIgnoresCtx = rapid.IntRange(0, 5).Draw(t, "netDialIgnoresCtx") == 0
 	p.TimeoutErr = rapid.SampledFrom([]string{"", "", "nottemp", "operror"}).Draw(t, "timeoutErr")
+	p.DLFault = rapid.SampledFrom([]string{"", "", "", "", "", "err-applied", "err-applied", "err-ignored"}).Draw(t, "setDeadlineFault")
+	p.CloseErr = rapid.IntRange(0, 4).Draw(t, "closeFails") == 0
+	p.FaultTop = rapid.Bool().Draw(t, "faultAtTopLayer")
 	sc.Wrap = rapid.SampledFrom([]string{"", "", "", "", "tlsclient", "wrapconn", "both", "tls-default"}).Draw(t, "wrap")
 	if sc.Wrap == "tls-default" {
 		// crypto/tls runs its handshake inside the first Write of the upgrade
@@ -306,6 +315,9 @@ func TestStalledPeerLimits(t *testing.T) {
 		sc.DialFail = false
 		if sc.refused() {
 			sc.Scheme = ""
+		}
+		if sc.Peer.DLFault == "err-ignored" {
+			sc.Peer.DLFault = "err-applied" // this test is about conns that honour deadlines
 		}
 		sc.Peer.EOF = false
 		switch rapid.IntRange(0, 3).Draw(rt, "stall") {
@@ -456,6 +468,9 @@ type enumCfg struct {
 	debug      string // wsutil.DebugDialer with these callbacks
 	ignoreCtx  bool   // NetDial ignores its context
 	timeoutErr string
+	dlFault    string
+	closeErr   bool
+	faultTop   bool
 }
 
 // peers of the configurations that dial wss with crypto/tls's own client
@@ -484,6 +499,11 @@ var enumCfgs = []enumCfg{
 	{ctx: "cancel", debug: "both", wrap: "tls-default"},
 	{ctx: "cancel", ignoreCtx: true, dialDelay: 10},
 	{ctx: "cancel", timeoutErr: "operror"},
+	{ctx: "cancel", dlFault: "err-applied"},
+	{ctx: "cancel", dlFault: "err-ignored", closeErr: true},
+	{ctx: "deadline", deadline: 993, timeout: 985, dlFault: "err-applied", closeErr: true, wrap: "both", faultTop: true},
+	{ctx: "value", closeErr: true, wrap: "wrapconn", faultTop: true},
+	{ctx: "cancelcause", dlFault: "err-ignored", wrap: "tlsclient", faultTop: true, debug: "both"},
 	{ctx: "custom", timeout: 995, timeoutErr: "nottemp", debug: "none"},
 	{ctx: "causechild", timeout: 995, wbuf: 64},
 	{ctx: "deadlinecause", deadline: 993, timeout: 985},
@@ -523,6 +543,7 @@ func TestEveryIOIndex(t *testing.T) {
 			}
 			base.DialIgnoresCtx = cfg.ignoreCtx
 			base.Peer.TimeoutErr = cfg.timeoutErr
+			base.Peer.DLFault, base.Peer.CloseErr, base.Peer.FaultTop = cfg.dlFault, cfg.closeErr, cfg.faultTop
 			base.Peer.SlowDL = cfg.slowDL
 			n, dryOut, dryV := dryRun(t, &base)
 			if dryV.Violation != "" || dryV.Infra != "" {
@@ -569,7 +590,7 @@ func TestEveryIOIndex(t *testing.T) {
 			}
 		}
 	}
-	hx.Part("cancel before/after every handshake I/O index (forced) + unforced race at the last + pre/dial-return/after-return/never, 21 configurations x 11 peers + 3 crypto/tls configurations x 5 peers", total, true)
+	hx.Part("cancel before/after every handshake I/O index (forced) + unforced race at the last + pre/dial-return/after-return/never, 26 configurations x 11 peers + 3 crypto/tls configurations x 5 peers", total, true)
 }
 
 // TestEveryExpiryInstant enumerates the timer-driven ends: for stalling and
@@ -628,7 +649,7 @@ func TestEveryExpiryInstant(t *testing.T) {
 	idx := 0
 	for _, ep := range peers {
 		for _, dialDelay := range []int{0, 20} {
-			for wi, wbuf := range []int{0, 64, 0, 0, 0, 0} {
+			for wi, wbuf := range []int{0, 64, 0, 0, 0, 0, 0} {
 				idx++
 				if !hx.Mine(idx) {
 					continue
@@ -647,6 +668,8 @@ func TestEveryExpiryInstant(t *testing.T) {
 				switch wi {
 				case 4:
 					base.Entry, base.Debug = "debug", "both"
+				case 6:
+					base.Peer.DLFault, base.Peer.CloseErr = "err-applied", true
 				case 5:
 					base.DialIgnoresCtx = true
 					base.Peer.TimeoutErr = "operror"
@@ -678,7 +701,7 @@ func TestEveryExpiryInstant(t *testing.T) {
 			}
 		}
 	}
-	hx.Part("18 kinds of limit x 8 instants x (5 stalling/slow peers + 2 peers stalling inside the crypto/tls handshake) x NetDial delay {0,20ms} x {default write buffer, 64-byte write buffer, slow SetDeadline, TLSClient+WrapConn wrappers, wsutil.DebugDialer, NetDial ignoring its context + *net.OpError timeouts}", total, true)
+	hx.Part("18 kinds of limit x 8 instants x (5 stalling/slow peers + 2 peers stalling inside the crypto/tls handshake) x NetDial delay {0,20ms} x {default write buffer, 64-byte write buffer, slow SetDeadline, TLSClient+WrapConn wrappers, wsutil.DebugDialer, NetDial ignoring its context + *net.OpError timeouts, failing SetDeadline (applied) + failing Close}", total, true)
 }
 
 // TestEveryURLKind enumerates the URL dimension: every scheme (dialable and
